@@ -56,7 +56,8 @@ def alphabet(seed):
     A["es"] = float(u(1.5, 2.5))
     A["counts"] = np.array([int(rng.integers(1, 4)), int(rng.integers(0, 3))])
     A["events"] = np.array([1, 0])
-    A["Q"] = np.array([[2., .5], [.5, 1.5]]) + np.diag(u(0., .5, 2))
+    A["Qh"] = np.array([[1.2, .3], [-.4, 1.1]]) + np.diag(u(0., .5, 2))
+    A["Q"] = A["Qh"].T @ A["Qh"]
     pts = []
     for g in range(4):
         p = {}
@@ -175,6 +176,34 @@ PTW_ALL = ["exp", "sqrt", "sin", "cos", "tan", "sinc", "expm1", "log", "log10", 
 
 
 # ---------------------------------------------------------------- environment
+_dense_cls = []
+
+
+def dense_operator(domain, target, mat):
+    """Harness-side linear leaf with an explicit matrix (TIMES = M x, ADJOINT = M^H y).
+    (MatrixProductOperator is not used: it is square-only and prints debug output on every apply.)"""
+    import nifty.cl as ift
+    if not _dense_cls:
+        class DenseOperator(ift.LinearOperator):
+            def __init__(self, domain, target, mat):
+                self._domain = ift.DomainTuple.make(domain)
+                self._target = ift.DomainTuple.make(target)
+                self._m = np.array(mat)
+                self._capability = self.TIMES | self.ADJOINT_TIMES
+
+            def apply(self, x, mode):
+                self._check_input(x, mode)
+                v = x.asnumpy().reshape(-1)
+                if mode == self.TIMES:
+                    return ift.makeField(self._target, (self._m @ v).reshape(self._target.shape))
+                return ift.makeField(self._domain, (self._m.conj().T @ v).reshape(self._domain.shape))
+
+            def __repr__(self):
+                return "DenseOperator%s" % (self._m.shape,)
+        _dense_cls.append(DenseOperator)
+    return _dense_cls[0](domain, target, mat)
+
+
 class Env:
     """nifty-side constants for one (seed, dtype) pair."""
 
@@ -192,10 +221,10 @@ class Env:
         S = self.S
         self.cF = ift.makeField(S, A["c"])
         self.dF = ift.makeField(S, A["d"])
-        self.Mop = ift.MatrixProductOperator(S, A["M"])
+        self.Mop = dense_operator(S, S, A["M"])
         self.dposF = ift.makeField(S, A["dpos"])
         self.Dop = ift.makeOp(self.dposF)
-        self.Qop = ift.MatrixProductOperator(S, A["Q"])
+        self.Qop = ift.SandwichOperator.make(dense_operator(S, S, A["Qh"]))
         self._cache = {}
 
     # lazily built library objects (energies, jax operators)
@@ -345,7 +374,14 @@ _reg("integrate", 1, _t("S", to="0"), lambda E, e: e.integrate(), lambda E, l: l
      lambda E, xp, v: VOL * xp.sum(v))
 _reg("vdotc", 1, _t("S", to="0"), lambda E, e: e.vdot(E.cF), lambda E, l: l.vdot(E.cF),
      lambda E, xp, v: xp.sum(xp.conj(v) * E.A["c"]))
-_reg("dl:u", 1, _t("S", to="Mu"), lambda E, e: e.ducktape_left("u"), lambda E, l: l.ducktape_left("u"),
+def _adapt(E, l, key):
+    # (Linearization.ducktape_left(str) looks at the Jacobian's *domain* and is not usable on a
+    #  non-trivial Linearization; the adapter operator is the supported spelling)
+    ift = E.ift
+    return ift.FieldAdapter(ift.MultiDomain.make({key: E.S}), key)(l)
+
+
+_reg("dl:u", 1, _t("S", to="Mu"), lambda E, e: e.ducktape_left("u"), lambda E, l: _adapt(E, l, "u"),
      lambda E, xp, v: {"u": v})
 _reg("get:u", 1, _t("Mu", "Muv", to="S"), lambda E, e: e["u"], lambda E, l: l["u"], lambda E, xp, v: v["u"])
 _reg("get:v", 1, _t("Muv", to="S"), lambda E, e: e["v"], lambda E, l: l["v"], lambda E, xp, v: v["v"])
@@ -448,8 +484,8 @@ _reg("vdot", 2, _t2({("S", "S"): "0"}), lambda E, a, b: a.vdot(b), lambda E, a, 
 _reg("outer", 2, _t2({("S", "S"): "SS"}), None, lambda E, a, b: a.outer(b),
      lambda E, xp, a, b: a[:, None] * b[None, :], linonly=True)
 _reg("pair", 2, _t2({("S", "S"): "Muv"}), lambda E, a, b: a.ducktape_left("u") + b.ducktape_left("v"),
-     lambda E, a, b: a.ducktape_left("u").unite(b.ducktape_left("v")) if a.jac is None
-     else a.ducktape_left("u") + b.ducktape_left("v"),
+     lambda E, a, b: _adapt(E, a, "u").unite(_adapt(E, b, "v")) if a.jac is None
+     else _adapt(E, a, "u") + _adapt(E, b, "v"),
      lambda E, xp, a, b: {"u": a, "v": b})
 
 
